@@ -111,6 +111,16 @@ fn render(parts: &[Part], eol: &str, final_eol: bool) -> String {
 }
 
 fn gen_const(rng: &mut Rng, depth: usize) -> Value {
+    if rng.chance(1, 4) {
+        // a random scalar that can be written as a literal
+        loop {
+            let t = *rng.pick(&["Int", "Float", "Decimal", "String", "Bool"]);
+            let v = crate::pools::random_value(rng, t);
+            if !matches!(&v, Value::Float(f) if !f.is_finite()) {
+                return v;
+            }
+        }
+    }
     let r = rng.below(if depth == 0 { 6 } else { 8 });
     match r {
         0 => Value::Int(*rng.pick(&[0i128, 1, -5, 42, i128::MAX, i128::MIN])),
